@@ -42,6 +42,8 @@ type obs struct {
 	Code   string   `json:"code"`  // sha256 of MarshalCode of this compilation
 	Code2  string   `json:"code2"` // sha256 of Marshal(Unmarshal(Marshal(code)))
 	Panic  string   `json:"panic,omitempty"`
+	// TimedOut: the 20 s watchdog fired during this evaluation (a loaded machine): its outcome says nothing
+	TimedOut bool `json:"timed_out,omitempty"`
 }
 
 func (o obs) digest() string {
@@ -75,6 +77,9 @@ func observe(src string) (o obs) {
 	defer func() {
 		if r := recover(); r != nil {
 			o.Panic = fmt.Sprintf("%v\n%s", r, debug.Stack())
+		}
+		if ctx.Err() != nil {
+			o.TimedOut = true
 		}
 	}()
 	vos := ros.NewVirtualOS(ctx, ros.WithStdout(stdout))
@@ -234,6 +239,7 @@ type out struct {
 	Fail     []failure      `json:"fail"`
 	Observed int            `json:"observed"` // programs with >=1 observable
 	Evals    int            `json:"evals"`
+	TimedOut int            `json:"timed_out"`
 	Ticks    int            `json:"ticks"`
 	ErrProgs map[string]int `json:"err_progs"`
 	Samples  []string       `json:"samples"`
@@ -272,11 +278,19 @@ func worker(kind string, data json.RawMessage) any {
 			}
 		}
 		first := observe(src)
+		if first.TimedOut {
+			o.TimedOut++
+			continue
+		}
 		o.Evals++
 		var bad string
 		var detail string
 		for k := 1; k < c.K; k++ {
 			next := observe(src)
+			if next.TimedOut {
+				o.TimedOut++
+				continue
+			}
 			o.Evals++
 			if kd, dt := diffObs(first, next); kd != "" {
 				bad, detail = kd, dt
@@ -369,6 +383,10 @@ func drive(d *mon.Driver, replay string) int {
 			return
 		}
 		d.Eval(o.Evals)
+		for k := 0; k < o.TimedOut && k < 3; k++ {
+			d.Inconclusive("an evaluation ran into the 20 s watchdog (not compared)")
+		}
+		d.Event("evaluations-timed-out-not-compared", o.TimedOut)
 		d.Event("tick-calls-observed", o.Ticks)
 		d.Event("programs-with-observables", o.Observed)
 		for k, v := range o.ErrProgs {
